@@ -224,8 +224,12 @@ def mk_kernel(src, start, ncols, maxrow, budgets, has_header, inds=None, unsafe=
 
 
 def jit_unsafe(src, ncols):
-    """conservative: some line may hold more cells than columns (the compiled kernel then indexes out of bounds) """
-    return any(line.count(b",") >= ncols for line in bytes(src).split(b"\n"))
+    """conservative: some record may hold more cells than columns (the compiled kernel then indexes out of bounds, which
+    is undefined behaviour without bounds checking). A quote may join lines, so with a quote present all separators count."""
+    b = bytes(src)
+    if b'"' in b:
+        return b.count(b",") >= ncols
+    return any(line.count(b",") >= ncols for line in b.split(b"\n"))
 
 
 def files_exhaustive(kinds, max_cols, max_rows):
